@@ -402,7 +402,11 @@ def queue_method(eng, it, q, m, args, kwargs):
     st = it.st
     L = VList(q.t, q.elem)
     if m in ('put', 'put_nowait'):
-        it.list_append(L, args[0])
+        item = args[0]
+        if isinstance(item, VExc):
+            # an exception object kept in a queue: an opaque object (class and message are not modelled)
+            item = VRef(st.new_ref(), 'PyException')
+        it.list_append(L, item)
         return VNone()
     if m == 'qsize':
         return it.from_idx(list_len(st, L))
